@@ -254,6 +254,10 @@ func (s *server) DeleteTable(ctx context.Context, req *btapb.DeleteTableRequest)
 		return nil, status.Errorf(codes.NotFound, "table %q not found", req.Name)
 	}
 	delete(s.tables, req.Name)
+	// Persistent storage must forget the table too, or it reappears on restart.
+	if d, ok := s.storage.(interface{ DeleteTableMeta(name string) }); ok {
+		d.DeleteTableMeta(req.Name)
+	}
 	return &emptypb.Empty{}, nil
 }
 
